@@ -1,0 +1,188 @@
+//go:build verif
+
+package lexer
+
+// Machine-checked contracts for the lexer (comment-only; compiled only with -tags verif).
+// Checked by /verif/spokvc: every clause below is turned into verification conditions
+// over the go/ssa form of the function it is attached to.
+
+//@ props C16 C08
+
+//@ ghost field Lexer.tokEnd int
+//@ ghost field Lexer.done bool
+
+// Representation invariant of the scanner.
+//@ pred LInv(l *Lexer) := 0 <= l.start && l.start <= l.pos && l.pos <= len(l.input)
+//@     && 0 <= l.width && l.width <= 4
+//@     && l.line == 1 + nl(l.input, 0, l.pos) && l.startLine == 1 + nl(l.input, 0, l.start)
+//@     && 0 <= l.tokEnd && l.tokEnd <= l.start && spaceRun(l.input, l.tokEnd, l.start)
+
+// Entry condition of each state function.
+//@ pred Pre(f lexFn, l *Lexer) :=
+//@        (f == lexStart ==> l.start == l.pos)
+//@     && (f == lexHash ==> l.start == l.pos && hasPrefixAt(l.input, l.pos, "#"))
+//@     && (f == lexComment ==> l.start == l.pos)
+//@     && (f == lexTaskKeyword ==> l.start == l.pos && hasPrefixAt(l.input, l.pos, "task"))
+//@     && (f == lexLeftParen ==> l.start == l.pos && hasPrefixAt(l.input, l.pos, "("))
+//@     && (f == lexRightParen ==> l.start == l.pos && hasPrefixAt(l.input, l.pos, ")"))
+//@     && (f == lexOutputOperator ==> l.start == l.pos && hasPrefixAt(l.input, l.pos, "->"))
+//@     && (f == lexLeftBrace ==> l.start == l.pos && hasPrefixAt(l.input, l.pos, "{"))
+//@     && (f == lexRightBrace ==> l.start == l.pos && hasPrefixAt(l.input, l.pos, "}"))
+//@     && (f == lexTaskBody ==> l.start == l.pos)
+//@     && (f == lexTaskCommands ==> l.start < l.pos)
+//@     && (f == lexTaskName ==> l.start == l.pos)
+//@     && (f == lexIdent ==> l.start < l.pos || isIdentRune(runeAt(l.input, l.pos)))
+//@     && (f == lexArgs ==> l.start == l.pos)
+//@     && (f == lexComma ==> l.start == l.pos && hasPrefixAt(l.input, l.pos, ","))
+//@     && (f == lexDeclare ==> l.start == l.pos && hasPrefixAt(l.input, l.pos, ":="))
+//@     && (f == lexString ==> l.start < l.pos)
+
+// Rank used for the transitions that do not advance l.start.
+//@ pred rank(f lexFn) := (f == lexComment ? 3 : (f == lexStart ? 2 : (f == lexTaskBody ? 2 : (f == lexTaskName ? 1 : (f == lexArgs ? 1 : (f == lexTaskCommands ? 1 : 0))))))
+
+// Contract shared by every state function (a value of type lexFn).
+//@ functype lexFn(l)
+//@ requires LInv(l) && !l.done && Pre(self, l)
+//@ modifies l.start, l.pos, l.line, l.startLine, l.width, l.tokEnd, l.done
+//@ ensures LInv(l)
+//@ ensures result == nil ==> l.done
+//@ ensures result != nil ==> !l.done && Pre(result, l)
+//@ ensures result != nil ==> l.start > old(l.start) || (l.start == old(l.start) && rank(result) < rank(self))
+
+//@ func (*Lexer).next
+//@ requires LInv(l)
+//@ modifies l.pos, l.width, l.line
+//@ ensures LInv(l)
+//@ ensures l.pos == old(l.pos) + l.width
+//@ ensures result == runeAt(l.input, old(l.pos)) && l.width == widthAt(l.input, old(l.pos))
+//@ ensures old(l.pos) >= len(l.input) ==> result == 65533 && l.width == 0
+//@ ensures old(l.pos) < len(l.input) ==> l.width >= 1
+//@ ensures nl(l.input, old(l.pos), l.pos) == (result == 10 ? 1 : 0)
+//@ ensures l.width > 1 ==> result >= 128
+
+//@ func (*Lexer).backup
+//@ requires LInv(l) && l.pos - l.width >= l.start && (l.width > 1 ==> nl(l.input, l.pos - l.width, l.pos) == 0)
+//@ modifies l.pos, l.line
+//@ ensures LInv(l) && l.pos == old(l.pos) - l.width
+
+//@ func (*Lexer).peek
+//@ requires LInv(l)
+//@ modifies l.width
+//@ ensures LInv(l)
+//@ ensures result == runeAt(l.input, l.pos) && l.width == widthAt(l.input, l.pos)
+//@ ensures l.pos >= len(l.input) ==> result == 65533 && l.width == 0
+//@ ensures l.pos < len(l.input) ==> l.width >= 1
+
+//@ func (*Lexer).skipWhitespace
+//@ requires LInv(l) && l.start == l.pos
+//@ modifies l.pos, l.width, l.line, l.start, l.startLine
+//@ ensures LInv(l) && l.start == l.pos && l.pos >= old(l.pos)
+//@ ensures spaceRun(l.input, old(l.pos), l.pos)
+//@ ensures !isSpace(runeAt(l.input, l.pos))
+//@ ensures l.pos == skipWS(l.input, old(l.pos))
+//@ loop 0: invariant LInv(l) && l.start == old(l.start) && spaceRun(l.input, l.start, l.pos)
+//@ loop 0: invariant skipWS(l.input, l.pos) == skipWS(l.input, old(l.pos))
+//@ loop 0: decreases len(l.input) - l.pos
+//@ loop 0: use skipWS_unfold(l.input, l.pos)
+
+// emit sends exactly one token; the assertions at the send are the statement of C16.
+//@ func (*Lexer).emit
+//@ requires LInv(l) && !l.done
+//@ requires t != token.ERROR
+//@ requires t == token.EOF ==> l.start == len(l.input)
+//@ modifies l.start, l.startLine, l.tokEnd, l.done
+//@ ensures LInv(l) && l.start == l.pos && l.tokEnd == l.pos && l.start >= old(l.start)
+//@ ensures l.done == (t == token.EOF)
+//@ at call send#0: assert [tile-type] sent.Type == t
+//@ at call send#0: assert [tile-text] 0 <= sent.Pos && sent.Pos + len(sent.Value) <= len(l.input) && sent.Value == l.input[sent.Pos : sent.Pos + len(sent.Value)]
+//@ at call send#0: assert [tile-order] l.tokEnd <= sent.Pos && spaceRun(l.input, l.tokEnd, sent.Pos)
+//@ at call send#0: assert [tile-line] sent.Line == 1 + nl(l.input, 0, sent.Pos)
+//@ at call send#0: assert [tile-eof] t == token.EOF ==> sent.Pos == len(l.input) && len(sent.Value) == 0
+//@ at call send#0: assert [tile-end] sent.Pos + len(sent.Value) == l.pos
+//@ at call send#0: ghost l.tokEnd = l.pos
+//@ at call send#0: ghost l.done = (t == token.EOF)
+
+//@ func (*Lexer).error
+//@ requires LInv(l) && !l.done && err != nil
+//@ modifies l.done
+//@ ensures result == nil && l.done && LInv(l)
+//@ at call send#0: assert [err-type] sent.Type == token.ERROR
+//@ at call send#0: ghost l.done = true
+
+//@ func (*Lexer).getLine
+//@ requires LInv(l)
+//@ ensures result == lineText(l.input, l.line)
+//@ loop 0: invariant 0 <= $i && len(lines) == $i && $i <= nlines(l.input)
+//@ loop 0: invariant forall k int :: {lines[k]} 0 <= k && k < $i ==> lines[k] == trimSpace(splitPiece(l.input, "\n", k))
+//@ loop 0: decreases nlines(l.input) - $i
+
+//@ func (*Lexer).run
+//@ requires LInv(l) && !l.done && l.start == l.pos
+//@ modifies l.start, l.pos, l.line, l.startLine, l.width, l.tokEnd, l.done
+//@ ensures l.done
+//@ loop 0: invariant LInv(l) && (state != nil ==> !l.done && Pre(state, l)) && (state == nil ==> l.done)
+//@ loop 0: decreases (l.done ? 0 : 1), len(l.input) - l.start, rank(state)
+
+//@ func New
+//@ ensures true
+
+//@ func lexStart
+//@ implements lexer.lexFn
+
+//@ func lexHash
+//@ implements lexer.lexFn
+
+//@ func lexComment
+//@ implements lexer.lexFn
+//@ loop 0: invariant LInv(l) && !l.done && l.start == old(l.start) && l.tokEnd == old(l.tokEnd)
+//@ loop 0: decreases len(l.input) - l.pos
+
+//@ func lexTaskKeyword
+//@ implements lexer.lexFn
+
+//@ func lexLeftParen
+//@ implements lexer.lexFn
+
+//@ func lexRightParen
+//@ implements lexer.lexFn
+
+//@ func lexOutputOperator
+//@ implements lexer.lexFn
+
+//@ func lexLeftBrace
+//@ implements lexer.lexFn
+
+//@ func lexRightBrace
+//@ implements lexer.lexFn
+
+//@ func lexTaskBody
+//@ implements lexer.lexFn
+
+//@ func lexTaskName
+//@ implements lexer.lexFn
+//@ loop 0: invariant LInv(l) && !l.done && l.start == old(l.start) && l.tokEnd == old(l.tokEnd)
+//@ loop 0: decreases len(l.input) - l.pos
+
+//@ func lexIdent
+//@ implements lexer.lexFn
+//@ loop 0: invariant LInv(l) && !l.done && l.start == old(l.start) && l.tokEnd == old(l.tokEnd)
+//@ loop 0: invariant l.start < l.pos || isIdentRune(runeAt(l.input, l.pos))
+//@ loop 0: decreases len(l.input) - l.pos
+
+//@ func lexArgs
+//@ implements lexer.lexFn
+
+//@ func lexComma
+//@ implements lexer.lexFn
+
+//@ func lexDeclare
+//@ implements lexer.lexFn
+//@ use skipWS_unfold(l.input, l.pos)
+
+//@ func lexString
+//@ implements lexer.lexFn
+//@ loop 0: invariant LInv(l) && !l.done && l.start == old(l.start) && l.tokEnd == old(l.tokEnd) && l.start < l.pos
+//@ loop 0: decreases len(l.input) - l.pos
+
+//@ func unexpectedToken
+//@ implements lexer.lexFn
